@@ -402,6 +402,9 @@ def same_enumeration(ctx):
     par = ctx.prog.parent.get(hc[0])
     feeder = par.targets[0].id if isinstance(par, ast.Assign) and isinstance(par.targets[0], ast.Name) else None
     dr = [l for l in loops if l.iter.id == feeder]
+    if feeder is None:
+        # for piece in Hasher(filelist, ...): the hasher is drained where it is made
+        dr = [n for n in own_nodes(fn.node) if isinstance(n, ast.For) and n.iter is hc[0]]
     # info['pieces'] = <empty bytes>.join(feeder) (directly, or through one local): the same concatenation, by the library
     joins = []
     for n in own_nodes(fn.node):
